@@ -497,6 +497,8 @@ def rule_i(ctx: Ctx) -> None:
                         known.add(who)
             if not known:
                 continue
+            if known & {'self', 'other'} and (('self.namespace == other.namespace', 'T') in gs or ('self.namespace != other.namespace', 'F') in gs):
+                known |= {'self', 'other'}      # equal token sets: both operands are ##other wildcards
             for y in uses:
                 # a comparison of the two target namespaces with each other is not a use of one of them as the excluded namespace
                 n += 1
